@@ -22,6 +22,7 @@ import (
 // -1, 0, 2^31-1, remainder+1 (CRC recomputed), corrupted compressed payloads, random bytes.
 
 type rreq struct {
+	Phase string `json:"phase,omitempty"` // "scan": only run the codec library on the payloads the decode can hand to it
 	Kind  string `json:"kind"`
 	Buf   []byte `json:"buf"`
 	Start int    `json:"start"`
@@ -30,6 +31,7 @@ type rreq struct {
 }
 
 type rresp struct {
+	Entries []w1.TabEntry `json:"entries"`
 	Header []byte `json:"header"`
 	Corr   int32  `json:"corr"`
 	Status int    `json:"status"`
@@ -64,6 +66,11 @@ func childRecords(l []byte) map[string]interface{} {
 	var r rreq
 	if err := json.Unmarshal(l, &r); err != nil {
 		return map[string]interface{}{"status": -1, "panic": err.Error()}
+	}
+	if r.Phase == "scan" {
+		tab := w1.NewTable()
+		tab.ScanDecompress(r.Buf, 0, 0)
+		return map[string]interface{}{"status": 0, "entries": tab.E}
 	}
 	if r.Kind == "recv" {
 		rr := sarama.VerifBrokerReceive(int16(r.N), r.Buf)
@@ -333,11 +340,36 @@ func runRecordsMalformed(out string, seed int64, n int, allBits bool, ch *w1.Chi
 
 	wd := w1.NewSizedWriter(out, "cases_rmal", "dcase2", "mismatches_dec2", 300, 250000)
 	wd.W.Imports = w1.RecImports
+	codecObs := 0
 	for _, in := range inputs {
-		l, died, to := ch.Call(map[string]interface{}{"rec": rreq{in.kind, in.buf, 0, in.n, in.aux}}, 10*time.Second)
+		// phase 1: what the codec library does with the payloads this decode can hand to it (in the child: a damaged
+		// frame header can make a decompressor allocate gigabytes by itself, which the property exempts)
+		tab := w1.NewTable()
+		var codecAlloc uint64
+		usesCodec := in.kind == "batch" || in.kind == "mset" || in.kind == "top"
+		if usesCodec {
+			sl, sdied, sto := ch.Call(map[string]interface{}{"rec": rreq{"scan", in.kind, in.buf, 0, in.n, in.aux}}, 10*time.Second)
+			if sdied || sto {
+				codecObs++
+				continue
+			}
+			var sr rresp
+			if err := json.Unmarshal(sl, &sr); err != nil {
+				panic(fmt.Sprintf("bad child response %q: %v", sl, err))
+			}
+			for _, e := range sr.Entries {
+				tab.Add(e.Codec, e.In, e.Out, e.Err)
+			}
+			codecAlloc = sr.Alloc
+		}
+		l, died, to := ch.Call(map[string]interface{}{"rec": rreq{"", in.kind, in.buf, 0, in.n, in.aux}}, 10*time.Second)
 		var rs rresp
 		class := ""
 		switch {
+		case (died || to) && codecAlloc > allocCap:
+			// the codec library alone is a heavy allocator on this payload: not attributable to sarama's decoders
+			codecObs++
+			continue
 		case died:
 			rs.Status, class = 101, "alloc"
 		case to:
@@ -346,16 +378,20 @@ func runRecordsMalformed(out string, seed int64, n int, allBits bool, ch *w1.Chi
 			if err := json.Unmarshal(l, &rs); err != nil {
 				panic(fmt.Sprintf("bad child response %q: %v", l, err))
 			}
-			tab := w1.NewTable()
-			tab.ScanDecompress(in.buf, 0, 0)
 			var decompressed uint64
 			for _, e := range tab.E {
 				decompressed += uint64(len(e.Out))
 			}
+			net := rs.Alloc
+			if net > codecAlloc {
+				net -= codecAlloc
+			} else {
+				net = 0
+			}
 			switch {
 			case rs.Status == 100:
 				class = "panic"
-			case in.kind != "recv" && rs.Alloc > allocCap+64*decompressed && len(in.buf) < 1024:
+			case in.kind != "recv" && net > allocCap+64*decompressed && len(in.buf) < 1024:
 				class = "alloc"
 				rs.Status = 101
 			case rs.NilRec:
@@ -377,8 +413,6 @@ func runRecordsMalformed(out string, seed int64, n int, allBits bool, ch *w1.Chi
 		} else if class != "" {
 			mon = &cf.Monitor{Signature: fmt.Sprintf("records:%s:%s", class, in.kind), What: fmt.Sprintf("%s decoding %s from %d bytes (%s %s) %s", class, in.kind, len(in.buf), in.mut, in.note, rs.Panic)}
 		}
-		tab := w1.NewTable()
-		tab.ScanDecompress(in.buf, 0, 0)
 		dk, ctor := ctorOf(in.kind)
 		switch in.kind {
 		case "control":
@@ -409,4 +443,5 @@ func runRecordsMalformed(out string, seed int64, n int, allBits bool, ch *w1.Chi
 			Kind: "malformed-" + in.kind + "-" + in.mut, Nontrivial: len(in.buf) > 17, Monitor: mon})
 	}
 	wd.Close()
+	fmt.Printf("OBSERVATION codec-alloc %d\n", codecObs)
 }
